@@ -40,14 +40,23 @@ CONFIGS = [
     ("lag", "Plan3", "Hist1", 1, 1, "hb", False, 0, 0, -1, ""),
     ("off", "PlanFF", "Hist2", 3, 2, "off", False, 0, 0, -1, ""),
     ("off1", "PlanFF", "Hist2", 3, 2, "off", False, 1, 1, -1, ""),
+    # the last history frame is dated 6 ids ahead of the clock (an imported frame): model only - the conformance side of
+    # this known finding is the follow probes of the http / cli groups. (C02_PollerNoMiss is not claimed here: with an
+    # imported id ahead of the clock the appended ids sort below a frame already seen - the clause says "imports excepted")
+    ("future", "PlanFF", "Hist2", 3, 2, "on", False, 0, 0, -1, "LostOnlyByKnown"),
 ]
-QUICK_MC = ["ff", "fe", "lim1", "lim2", "tail", "ctx0", "ctx1", "last", "off", "off1"]
+AHEAD = {"future": 6}
+MODEL_ONLY = {"future"}
+QUICK_MC = ["ff", "fe", "lim1", "lim2", "tail", "ctx0", "ctx1", "last", "off", "off1", "future"]
 THOROUGH_MC = [c[0] for c in CONFIGS]
 
 # spec mutants: flag switched off in config -> invariant TLC must report
 SPEC_MUTANTS = [("ff", "UseLock", "C02_PollerNoMiss"), ("ff", "DedupLe", "C03_Increasing"),
                 ("ff", "SubFirst", "C03_Complete"), ("ff", "CommitFirst", "C03_Complete"),
-                ("lim1", "LimitFix", "C11_LimitNotExceeded"), ("lim3hb", "HbStops", "C11_LimitCloses")]
+                ("lim1", "LimitFix", "C11_LimitNotExceeded"), ("lim3hb", "HbStops", "C11_LimitCloses"),
+                # not a mutant but a witness: the model reproduces known finding C03-future-dated-history-drops-live
+                # (flag None: nothing switched off, the invariant named is added and must be reported)
+                ("future", None, "C03_Complete")]
 
 TIERS = {
     "quick": dict(mc=QUICK_MC, sim=40, sim_depth=70, rnd=500, rnd_steps=120, chunk=150, stress=4),
@@ -55,7 +64,7 @@ TIERS = {
 }
 
 
-def cfg_text(c, gen=False, flags=None):
+def cfg_text(c, gen=False, flags=None, extra_inv=None):
     name, plan, hist, B, M, follow, tail, last, limit, rctx, extra = c
     fl = dict(UseLock=True, DedupLe=True, SubFirst=True, CommitFirst=True, LimitFix=True, HbStops=True)
     fl.update(flags or {})
@@ -64,11 +73,13 @@ def cfg_text(c, gen=False, flags=None):
          f"  B = {B}", f"  M = {M}", f'  Follow = "{follow}"', f"  OptTail = {str(tail).upper()}",
          f"  OptLast = {last}", f"  Limit = {limit}", f"  RCtx <- {rc}", "  MaxPulse = 2"]
     t += [f"  {k} = {str(v).upper()}" for k, v in fl.items()]
+    t += [f"  Ahead = {AHEAD.get(name, 0)}"]
     t += [f"  Gen = {str(gen).upper()}"]
+    common = COMMON.replace("C02_PollerNoMiss ", "") if name in AHEAD else COMMON
     if gen:
         t += ["INVARIANT GenInv"]
     else:
-        t += ["VIEW mcview", f"INVARIANT {COMMON} {extra}"]
+        t += ["VIEW mcview", f"INVARIANT {common} {extra} {extra_inv or ''}"]
     t += ["CHECK_DEADLOCK FALSE"]
     return "\n".join(t) + "\n"
 
@@ -141,7 +152,7 @@ def check_spec_mutants(d):
     for cname, flag, inv in SPEC_MUTANTS:
         c = [x for x in CONFIGS if x[0] == cname][0]
         cfgp = os.path.join(d, f"mut_{cname}_{flag}.cfg")
-        open(cfgp, "w").write(cfg_text(c, flags={flag: False}))
+        open(cfgp, "w").write(cfg_text(c, flags={flag: False}) if flag else cfg_text(c, extra_inv=inv))
         out, _, _, _ = tlc("MCXsConcurrent.tla", cfgp, workers=8, timeout=900)
         caught = "is violated" in out
         res.append({"cfg": cname, "flag": flag, "caught": caught})
@@ -164,6 +175,8 @@ def run(tier, seed):
         scs = []
         s = 0
         for c in CONFIGS:
+            if c[0] in MODEL_ONLY:
+                continue
             scheds = gen_schedules(c, cfg["sim"], cfg["sim_depth"], seed + 7, d)
             rng.shuffle(scheds)
             for sch in scheds[:cfg["sim"]]:
